@@ -37,3 +37,85 @@ add("c15_signed_with_length", ["C15"], "c15.rs", "L", "as_signed_vint_with_lengt
 add("c15_read_signed_total", ["C15"], "c15.rs", "L", "read_signed_vint total, agrees with read_vint on need-more/error/length, value == two's complement of the 7l-bit field",
     "all 2^72 contents of a 9-byte array x every slice length 0..=9")
 add("c15_is_vint", ["C15"], "c15.rs", "L", "is_vint(v) == (byte length of v == length announced by its marker)", V64)
+
+# ---------------------------------------------------------------- C16 (leaf part)
+SL9 = "all 2^72 contents of a 9-byte array x every slice length 0..=9"
+add("c16_arr_to_u64", ["C16", "C02"], "c16.rs", "L", "arr_to_u64: big-endian value for len<=8 (empty=0), Err for 9; total", SL9)
+add("c16_arr_to_i64", ["C16", "C02", "C05"], "c16.rs", "L", "arr_to_i64: sign-extended two's complement for len<=8 (empty=0), Err for 9; total", SL9)
+add("c16_arr_to_f64", ["C16", "C02"], "c16.rs", "L", "arr_to_f64: bit-exact for len 8, exact IEEE widening for len 4, Err otherwise; total", SL9)
+
+# ---------------------------------------------------------------- C01 (S) size-field composition
+for L in range(1, 9):
+    add("c01_size_width_%d" % L, ["C01"], "c01.rs", "L",
+        "as_vint_with_length::<%d>(s) is rejected or is read back (read_vint + RFC 8794 unknown-size rule) as Known(s); only s=2^%d-1 reads as unknown" % (L, 7 * L), V64)
+
+# ---------------------------------------------------------------- header unit (shared)
+IO_HASH = ["io", "hash"]
+HDR_DEC = ("peek_valid_tag_header == ref_header(window[cursor..fill]) + fault set: accepted header mirrors the bytes (C03a), result independent of stale bytes "
+           "beyond the fill level (C04a), no panic and 2<=header_len<=available (C05a), truncated header -> accurate EOF error never corruption (C12a), "
+           "rejections carry their own kind/id/offset under every tolerance mask (C13), size above limit never accepted, no overflow (C17a)")
+add("hdr_flat_full", ["C03", "C04", "C05", "C13", "C17"], "hdr.rs", "U", HDR_DEC,
+    "24-byte buffer fully symbolic, cursor 0..=3, fill >= cursor+16 (every header fits), base offset < 2^40, all 8 masks, limit any Option<usize>; spec Flat",
+    timeout_s=1800, mem_gb=16, stubs=IO_HASH, big_stack=True,
+    assumes=["Inv_buf: cursor <= fill <= allocation = 24, buffer_offset = Some(base)", "empty tag stack, document path not yet determined"])
+add("hdr_flat_trunc", ["C03", "C04", "C05", "C12", "C13", "C17"], "hdr.rs", "U", HDR_DEC,
+    "24-byte buffer fully symbolic incl. the stale bytes behind the fill level, fill 0..=15, cursor 0, source at EOF, base offset < 2^40, all 8 masks, limit any; spec Flat",
+    timeout_s=1800, mem_gb=16, stubs=IO_HASH, big_stack=True,
+    assumes=["cursor == 0: the state ensure_data_read leaves at EOF (its view-preservation contract is decided by the edr_* harnesses)", "source returns Ok(0)",
+             "empty tag stack, document path not yet determined"])
+
+# ---------------------------------------------------------------- ensure_data_read unit
+EDR_B = "24-byte symbolic stream, 3 scripted reads of 0..=8 bytes each (0 = temporary EOF) then EOF, request length as in the name (the call sites use 1, 8, 16 and payload sizes), 16 symbolic stale bytes, fill<=8, cursor<=fill, base<2^40"
+for n, cap, ff in (("edr_refill_cap16_len16", 16, False), ("edr_first_fill_cap16_len8", 16, True), ("edr_refill_cap8_len16", 8, False),
+                   ("edr_first_fill_cap0_len1", 0, True), ("edr_refill_cap16_len5", 16, False)):
+    add(n, ["C04", "C05"], "edr.rs", "U",
+        "ensure_data_read: position fixed, buffered window == stream at every absolute position, only extended, no byte lost/duplicated, "
+        "Ok(true) => bytes present, Ok(false) only after the source returned 0" + (" (first fill)" if ff else ""),
+        EDR_B + ", allocation %d" % cap, timeout_s=600, mem_gb=6, stubs=IO_HASH,
+        assumes=["Inv_buf on the seeded state", "source delivers the stream in order (Read contract)"])
+add("edr_source_error", ["C05"], "edr.rs", "U", "a failing source.read surfaces as ReadError carrying the same OS error; never swallowed",
+    "failing call index 0..=2, 3 scripted reads of 0..=3 bytes, request 8 bytes, allocation 16", timeout_s=900, mem_gb=8, stubs=IO_HASH,
+    assumes=["source fails with from_raw_os_error(5)"])
+
+# ---------------------------------------------------------------- writer units
+WST = ["io", "fmt", "toolerr"]
+add("c16w_uint", ["C16", "C01", "C02"], "wr.rs", "U", "write_unsigned_int_tag::<0>: id | 0x80+w | big-endian, w minimal in {1,2,4,8}; arr_to_u64 inverts", V64, timeout_s=1200, mem_gb=8, stubs=WST)
+add("c16w_int", ["C16", "C01", "C02"], "wr.rs", "U", "write_signed_int_tag::<0>: minimal two's-complement width; arr_to_i64 inverts", "all 2^64 i64 values", timeout_s=1200, mem_gb=8, stubs=WST)
+add("c16w_float", ["C16", "C01", "C02"], "wr.rs", "U", "write_float_tag::<0>: 8 bytes, bit pattern preserved; arr_to_f64 inverts bit for bit", "all 2^64 bit patterns incl. NaNs", timeout_s=1200, mem_gb=8, stubs=WST)
+add("c09_id_bytes", ["C09", "C01"], "wr.rs", "U", "element id emitted unchanged in exactly its byte length", "all well-formed ids (1..=8 bytes)", timeout_s=1200, mem_gb=8, stubs=WST,
+    assumes=["id well-formed (the writer is only given spec ids or ids that passed is_vint)"])
+for W, C, tier in ((0, 2, "quick"), (1, 2, "quick"), (8, 2, "quick"), (2, 2, "thorough"), (3, 2, "thorough"), (4, 2, "thorough"), (5, 2, "thorough"),
+                   (6, 2, "thorough"), (7, 2, "thorough"), (0, 0, "thorough"), (8, 0, "thorough")):
+    add("c09_end_tag_w%d_c%d" % (W, C), ["C09", "C01", "C10"], "wr.rs", "U",
+        "end_tag: buffer == prefix | id | size field of width %s | content; master popped" % (W or "shortest"),
+        "concrete shape: 2 prefix bytes, %d content bytes, 1-byte id; all byte values symbolic" % C, tier=tier, timeout_s=1800, mem_gb=16, stubs=WST, big_stack=True,
+        assumes=["Inv_w: open master's start <= buffer length"])
+add("c01w_binary_len_126_128", ["C01", "C09"], "wr.rs", "U", "write_binary_tag::<0> with a 126/127/128-byte payload: size field reads back as Known(len), not as the reserved unknown-size pattern",
+    "payload length 126..=128 symbolic, payload bytes concrete zeros (only the length matters)", timeout_s=1200, mem_gb=8, stubs=WST)
+add("c01w_end_tag_content_127", ["C01", "C09"], "wr.rs", "U", "end_tag of a master with 127 content bytes writes Known(127)", "content concrete zeros, default width", timeout_s=1200, mem_gb=8, stubs=WST)
+C19A = ["Inv_w on the seeded state; state compared = working buffer (first 8 bytes + length), open-master stack (depth <= 2), bytes handed to the destination"]
+add("c19_binary_width1_overflow", ["C19", "C09"], "wr.rs", "U", "write_binary_tag::<1> with 126..129-byte payload: Err iff len >= 127; on Err state == snapshot",
+    "payload length 126..=129 (bytes concrete), 2 symbolic buffered bytes, one known-size master open", timeout_s=900, mem_gb=8, stubs=WST, assumes=C19A)
+add("c19_end_tag_outer_id_inner_known", ["C19"], "wr.rs", "U", "end_tag(outer master's id) while a known-size inner master is open: Err and state == snapshot", "3 symbolic buffered bytes", timeout_s=900, mem_gb=8, stubs=WST, assumes=C19A)
+add("c19_end_tag_outer_id_inner_unknown", ["C19"], "wr.rs", "U", "end_tag(outer master's id) while an unknown-size inner master is open: Err and state == snapshot", "3 symbolic buffered bytes", timeout_s=900, mem_gb=8, stubs=WST, assumes=C19A)
+add("c19_end_tag_any_id_inner_unknown", ["C19"], "wr.rs", "U", "end_tag(any other id), inner unknown-size: Err and state == snapshot", "all 2^64-1 other ids", timeout_s=900, mem_gb=8, stubs=WST, assumes=C19A)
+add("c19_end_tag_any_id_inner_known", ["C19"], "wr.rs", "U", "end_tag(any other id), inner known-size: Err and state == snapshot", "all 2^64-1 other ids", tier="thorough", timeout_s=2400, mem_gb=12, stubs=WST, assumes=C19A)
+add("c19_end_tag_no_open", ["C19"], "wr.rs", "U", "end_tag with nothing open: Err and state unchanged", "all ids", timeout_s=600, mem_gb=6, stubs=WST, assumes=C19A)
+for n in (127, 128):
+    add("c19_end_tag_width1_content%d" % n, ["C19", "C09"], "wr.rs", "U", "end_tag of a width-1 master with %d content bytes: Err, master still open, buffer unchanged" % n,
+        "content bytes concrete", timeout_s=900, mem_gb=8, stubs=WST, assumes=C19A)
+add("c19_unknown_size_non_master", ["C19"], "wr.rs", "U", "write_advanced(leaf, unknown size): Err and state == snapshot", "all u64 payload values, spec Tree", timeout_s=900, mem_gb=8, stubs=WST, assumes=C19A)
+add("c19_raw_malformed_id", ["C19"], "wr.rs", "U", "write(raw tag with malformed id): TagIdError(id) and state == snapshot", "all ids outside Tree that are not well-formed", timeout_s=900, mem_gb=8, stubs=WST, assumes=C19A)
+add("c19_full_invalid_child", ["C19", "C09"], "wr.rs", "U", "public write(Full(A,[L3 (misplaced)])) under an open Root: UnexpectedTag(L3) and state == snapshot",
+    "spec Tree; child value symbolic (u64); 2 symbolic buffered bytes", timeout_s=1500, mem_gb=12, stubs=WST, assumes=C19A)
+
+# ---------------------------------------------------------------- C18 derive corpus
+for d, what in (("d1", "all six data types, depth-2 paths, 1-3 byte ids (the repo's test declaration)"),
+                ("d2", "two roots, depth-3 path, trailing global placeholders (-), (1-2), (-3), root-level (2-), 4-byte ids"),
+                ("d3", "intermediate global placeholders, master under a global, root-level leaf, 8-byte id"),
+                ("d4", "single-variant declaration")):
+    for asp, dec in (("tables", "generated get_tag_data_type/get_path_by_id exact on declared ids (incl. Void, Crc32) and None/[] elsewhere; both front-ends agree"),
+                     ("numeric", "unsigned/signed/float constructors Some iff the id has that type; tag returns id + payload through the matching accessor only (both front-ends)"),
+                     ("heap", "utf8/binary/master constructors Some iff type matches, payload via matching accessor only; raw-tag variant keeps id and bytes, binary-only (both front-ends)")):
+        add("c18_%s_%s" % (asp, d), ["C18"], "c18.rs", "L", dec,
+            "declaration %s (%s) expanded by the real macros; probe id: all 2^64 values; payloads symbolic" % (d, what), timeout_s=900, mem_gb=8)
